@@ -246,8 +246,29 @@ def call_graph(crate):
             for s in B.blocks[i]["stmts"]:
                 if s["k"] == "assign" and s["rv"]["k"] == "aggregate" and s["rv"].get("closure"):
                     edges.add(s["rv"]["closure"])
+                # function items used as values (tables of function pointers) and named constants / statics (whose initialisers
+                # can hold function pointers and closures): what is mentioned can be called
+                _mentions(s, edges)
+            _mentions({k: v for k, v in B.term(i).items() if k != "func"}, edges)
         g[b["path"]] = edges
     return g
+
+
+def _mentions(o, edges):
+    if isinstance(o, dict):
+        if o.get("k") == "const":
+            if o.get("fn_path"):
+                edges.add(o.get("inst_path") or o["fn_path"])
+            if o.get("uneval"):
+                edges.add(o["uneval"])
+            return
+        if o.get("k") == "static" and o.get("path"):
+            edges.add(o["path"])
+        for v in o.values():
+            _mentions(v, edges)
+    elif isinstance(o, list):
+        for v in o:
+            _mentions(v, edges)
 
 
 def reachable(graph, roots):
